@@ -578,9 +578,25 @@ def ck7(model):
                    floor=1)
     m = model.mod('shell.shell')
     alts = set()
+    helpers = {}
     for s in m.tree.body:
+        if isinstance(s, ast.FunctionDef):
+            rets = [x for x in ast.walk(s) if isinstance(x, ast.Return) and x.value is not None]
+            if len(rets) == 1 and _is_alt(rets[0].value, set()):
+                alts.add(s.name)
+                helpers[s.name] = s
         if isinstance(s, ast.Assign) and isinstance(s.targets[0], ast.Name) and _is_alt(s.value, alts):
             alts.add(s.targets[0].id)
+
+    def escapes(v):
+        for x in ast.walk(v):
+            if isinstance(x, ast.Call) and T.call_name(x) == 'escape':
+                return x
+            if isinstance(x, ast.Call) and isinstance(x.func, ast.Name) and x.func.id in helpers:
+                for y in ast.walk(helpers[x.func.id]):
+                    if isinstance(y, ast.Call) and T.call_name(y) == 'escape':
+                        return y
+        return None
 
     def walk(stmts, state):
         for s in stmts:
@@ -594,6 +610,11 @@ def ck7(model):
                     state = 'alt'
             elif isinstance(s, ast.AugAssign) and isinstance(s.op, ast.Add) and unparse(s.target) == 'cmdline.single_letters':
                 v = s.value
+                esc = escapes(v)
+                if esc is not None:
+                    r.fail(esc, 'the placeholders appended to --single-letters are escaped here, and the '
+                           'checks escape every accepted pattern again: V-V-V becomes V\\\\-V\\\\-V and is '
+                           'no longer accepted', witness='--single-letters "A||" with an equation in the text')
                 if _is_alt(v, alts):
                     if state == 'alt':
                         r.fail(s, 'a second alternation is appended to --single-letters without a | in '
@@ -622,6 +643,8 @@ def ck7(model):
 def _is_alt(v, alts):
     if isinstance(v, ast.Name):
         return v.id in alts
+    if isinstance(v, ast.Call) and isinstance(v.func, ast.Name) and v.func.id in alts:
+        return True     # module-level helper that returns a join
     return isinstance(v, ast.Call) and T.call_name(v) == 'join' and isinstance(v.func.value, ast.Constant) \
         and v.func.value.value == '|'
 
